@@ -35,7 +35,8 @@ ASSUMPTIONS = ["grid states (C13) and sampler outputs (C02) are taken as given: 
 TIERS = {
     "quick": {"worlds": 6000, "wall": 500, "shrink_budget": 60,
               "required_probes": ["c15.path_checked", "c15.zero_jump_path", "c15.multi_date", "c15.maxstep_mode",
-                                  "c15.coupled_path", "c15.gap_gt_eps", "c15.nd_path_checked", "c15.step_cap_changes_between_levels"]},
+                                  "c15.coupled_path", "c15.gap_gt_eps", "c15.nd_path_checked", "c15.step_cap_changes_between_levels",
+                                  "c15.jumps_in_several_date_intervals_on_jump_times"]},
     "thorough": {"worlds": 200000, "wall": 3300, "shrink_budget": 150,
                  "required_probes": ["c15.path_checked", "c15.zero_jump_path", "c15.multi_date", "c15.maxstep_mode",
                                      "c15.coupled_path", "c15.gap_gt_eps", "c15.tail_gap_gt_eps", "c15.burst", "c15.step_cap_changes_between_levels"]},
@@ -117,7 +118,9 @@ def generate(seed, tier="quick"):
                 "method": r.choice(B.COUPLING_METHODS if kind == "coupling" else B.WORKING_METHODS)}
     mode = r.choice(["fixed", "fixed", "jump", "maxstep", "maxstep"])
     T = r.choice([0.5, 1.0, 2.0])
-    dates = r.choice([2, 3, 4, 6]) if mode == "fixed" else 2
+    # several product dates also in the jump-time and maximum-step modes: the simulators draw the jumps date interval by
+    # date interval and must carry the running sum across the dates
+    dates = r.choice([2, 3, 4, 6]) if mode == "fixed" else r.choice([2, 2, 3, 4])
     npaths = r.choice([4, 6, 12])
     nint = dates - 1
     counts = []
@@ -251,7 +254,7 @@ def execute(wd, sc):
         process = B.build_process(sc["process"])
         prod_spec = {"kind": "call", "maturity": T, "strike": 100.0, "dates": sc["dates"]}
         if mode == "jump":
-            prod_spec = {"kind": "cds", "maturity": T}
+            prod_spec = {"kind": "cds", "maturity": T, "dates": sc["dates"]}
         model_for_product = process.model
         product = B.build_product(prod_spec, model_for_product)
         eps = sc["eps"] if mode == "maxstep" else None
@@ -448,12 +451,22 @@ def execute(wd, sc):
                     add(f"C15.jumps|coarse jump component is not the running sum of the coupled increments up to each date|{mech}|{cls}",
                         {"path": p, "got": jumps[1].tolist(), "expected": exp_c.tolist()})
         else:
-            # jump-time / max-step modes: one interval [0, T]
+            # jump-time / max-step modes: jumps drawn date interval by date interval, path on its own jump times
             us = [np.asarray(d[8], dtype=float) for d in draws if d[1] in ("random_sample", "random") and
                   "jump_times_from_nb_of_jumps" in d[4]]
-            u = us[0] if us else np.zeros(0)
-            jt = np.sort(T * u)
-            sz = np.array(per_interval[0] if per_interval else [], dtype=float)
+            tg = np.asarray(times_grid, dtype=float)
+            parts = []
+            for kk in range(nint):
+                u_k = us[kk] if kk < len(us) else np.zeros(0)
+                parts.append(tg[kk] + np.sort((tg[kk + 1] - tg[kk]) * u_k))
+            jt = np.concatenate(parts) if parts else np.zeros(0)
+            if [int(x.size) for x in parts] != [int(x) for x in row]:
+                add(f"C15.counts|jump counts used by the path are not the pre-drawn / drawn Poisson counts|{cls}",
+                    {"path": p, "used": [int(x.size) for x in parts], "drawn": list(row)})
+                continue
+            if nint > 1 and sum(1 for x in row if x > 0) >= 2:
+                wd.probes["c15.jumps_in_several_date_intervals_on_jump_times"] += 1
+            sz = np.array([x for chunk in per_interval for x in chunk], dtype=float)
             if jt.size != sz.size:
                 add(f"C15.counts|number of jump sizes differs from the number of jump times|{cls}",
                     {"path": p, "times": int(jt.size), "sizes": int(sz.size)})
@@ -462,7 +475,7 @@ def execute(wd, sc):
             cumj = np.cumsum(sz)
             base_j = np.concatenate(([0.0], cumj, [cumj[-1] if cumj.size else 0.0]))
             if coupled:
-                cs = np.array(coarse_slices[0] if coarse_slices else [], dtype=float)
+                cs = np.cumsum(np.array(cj, dtype=float)) if len(cj) else np.zeros(0)  # running sum across all the dates
                 base_c = np.concatenate(([0.0], cs, [cs[-1] if cs.size else 0.0]))
             if mode == "jump" or (eps is not None and eps >= T):
                 if not _close(times, base_t, T):
